@@ -137,7 +137,8 @@ def run(ctx):
     nrun = 0
     for p in rp:
         calls = [e for e in p.events if e.kind == 'call' and e.ftext in ('subprocess.run', 'subprocess.Popen', 'subprocess.call', 'subprocess.check_call', 'os.system', 'os.execvp')]
-        ctx.check(len(calls) == 1 and calls[0].ftext == 'subprocess.run', 'C13.3', 'child:one-subprocess.run', f_run.loc(), 'the program is started once with subprocess.run',
+        # (subprocess.call(..) is subprocess.run(..).returncode: the same start, waited for, without the result object)
+        ctx.check(len(calls) == 1 and calls[0].ftext in ('subprocess.run', 'subprocess.call'), 'C13.3', 'child:one-subprocess.run', f_run.loc(), 'the program is started once with subprocess.run',
                   'the program is started by %s' % [e.text[:60] for e in calls])
         for e in calls[:1]:
             nrun += 1
@@ -160,7 +161,7 @@ def run(ctx):
             if wd:
                 i_wd = p.events.index(wd[0])
                 muts = [x for x in muts if not (x.ftext.split('.')[-1] == 'update' and len(x.args) == 1 and not x.kwargs and norm(x.args[0]).startswith('self.args.') and p.events.index(x) < i_wd)]
-            ctx.check(envtxt == 'os.environ.copy()' and len(wd) == 1 and env_stores[-1:] and (wd[0] is env_stores[-1] or all("'WAYLAND_DEBUG'" not in (x.target or '') for x in env_stores[env_stores.index(wd[0]) + 1:])) and not muts,
+            ctx.check(envtxt in ('os.environ.copy()', 'dict(os.environ)', '{**os.environ}') and len(wd) == 1 and env_stores[-1:] and (wd[0] is env_stores[-1] or all("'WAYLAND_DEBUG'" not in (x.target or '') for x in env_stores[env_stores.index(wd[0]) + 1:])) and not muts,
                       'C13.3', 'child:env', f_run.loc(c),
                       'the environment is a copy of ours with WAYLAND_DEBUG=1 stored unconditionally before the start', 'environment is %s / WAYLAND_DEBUG stores %s / other mutations %s' % (envtxt[:60], [x.text for x in wd], [x.text[:40] for x in muts]))
             others = [x for x in env_stores if x not in wd]
@@ -169,7 +170,9 @@ def run(ctx):
             closes = [x for x in p.events[idx:] if x.kind == 'call' and x.ftext == 'os.close' and x.argtext(0) == 'self.stderr_fd']
             ctx.check(len(closes) == 1, 'C13.3', 'child:write-end-closed-after', f_run.loc(c), 'our write end of the pipe is closed after the child returned (so the reader sees end of input)')
             st = [x for x in p.events[idx:] if x.kind == 'store' and x.target == 'self.returncode']
-            ctx.check(len(st) == 1 and norm(st[0].value).endswith(').returncode') and norm(st[0].value).startswith('subprocess.run(') and getattr(getattr(st[0].value, 'value', None), '_ep', None) == e.ep, 'C13.4', 'status:from-child', f_run.loc(c),
+            from_run = len(st) == 1 and norm(st[0].value).endswith(').returncode') and norm(st[0].value).startswith('subprocess.run(') and getattr(getattr(st[0].value, 'value', None), '_ep', None) == e.ep
+            from_call = len(st) == 1 and e.ftext == 'subprocess.call' and norm(st[0].value).startswith('subprocess.call(') and getattr(st[0].value, '_ep', None) == e.ep
+            ctx.check(from_run or from_call, 'C13.4', 'status:from-child', f_run.loc(c),
                       'returncode <- subprocess.run(...).returncode of that very run', 'returncode <- %s' % [norm(x.value)[:60] for x in st])
     ctx.floor('C13.3', nrun, 1, 'subprocess.run call')
     f_rp = repo.func('runner.run_program')
